@@ -40,6 +40,18 @@ def _h5_roots(func, du):
             elif isinstance(v, ast.Subscript) and isinstance(v.value, ast.Name) and v.value.id in roots and _group_like(v, func):
                 roots[t.id] = roots[v.value.id] + _keytext(v.slice) + "/"
                 changed = True
+            elif isinstance(v, ast.ListComp) and isinstance(v.elt, ast.Subscript) and isinstance(v.elt.value, ast.Name) and v.elt.value.id in roots and _keytext(v.elt.slice) is not None and _group_like(v.elt, func):
+                # groups = [hdf5[f"g{i}"] for i in range(n)]: every variable that iterates over the list denotes one such group
+                prefix = roots[v.elt.value.id] + _keytext(v.elt.slice) + "/"
+                roots[t.id] = prefix  # the list itself (marks the comprehension's subscript as a group binding)
+                for n in walk_no_nested(func.node):
+                    if isinstance(n, ast.For) and isinstance(n.iter, ast.Name) and n.iter.id == t.id and isinstance(n.target, ast.Name):
+                        roots[n.target.id] = prefix
+                    if isinstance(n, (ast.ListComp, ast.GeneratorExp, ast.SetComp, ast.DictComp)):
+                        for g in n.generators:
+                            if isinstance(g.iter, ast.Name) and g.iter.id == t.id and isinstance(g.target, ast.Name):
+                                roots[g.target.id] = prefix
+                changed = True
             elif isinstance(v, ast.Call) and (src(v.func).endswith("HDF5File") or src(v.func).endswith("File")) and isinstance(t, ast.Name):
                 # hdf5 = HDF5File(hdf5, "r")
                 if any(isinstance(a, ast.Name) and a.id in roots for a in v.args):
@@ -77,10 +89,25 @@ def _group_like(sub, func):
         st = getattr(st, "_parent", None)
     if not isinstance(st, ast.Assign) or not isinstance(st.targets[0], ast.Name):
         return False
+    if st.value is not sub and not (isinstance(st.value, ast.ListComp) and st.value.elt is sub):
+        return False
     name = st.targets[0].id
     for n in walk_no_nested(func.node):
         if isinstance(n, ast.Subscript) and isinstance(n.value, ast.Name) and n.value.id == name and _keytext(n.slice) is not None:
             return True
+    # a list of group handles: names = [h5[f"g{i}"] for i in ...] ; later `for g in names: g["key"]` / `[g["key"] for g in names]`
+    if isinstance(st.value, (ast.ListComp, ast.List, ast.Tuple)):
+        elem_vars = set()
+        for n in walk_no_nested(func.node):
+            if isinstance(n, ast.For) and isinstance(n.iter, ast.Name) and n.iter.id == name and isinstance(n.target, ast.Name):
+                elem_vars.add(n.target.id)
+            if isinstance(n, (ast.ListComp, ast.GeneratorExp, ast.SetComp, ast.DictComp)):
+                for g in n.generators:
+                    if isinstance(g.iter, ast.Name) and g.iter.id == name and isinstance(g.target, ast.Name):
+                        elem_vars.add(g.target.id)
+        for n in walk_no_nested(func.node):
+            if isinstance(n, ast.Subscript) and isinstance(n.value, ast.Name) and n.value.id in elem_vars and _keytext(n.slice) is not None:
+                return True
     return False
 
 
@@ -102,13 +129,25 @@ def writer_map(P, func):
 
 def version_arms(func):
     """(current_arm_stmts, legacy_arm_stmts, if_node): the If whose test reads the file version."""
+    def rest_after(n):
+        """An arm that ends in return / raise and has no else: the other arm is what follows the `if`."""
+        par = getattr(n, "_parent", None)
+        for fld in ("body", "orelse", "finalbody"):
+            blk = getattr(par, fld, None)
+            if isinstance(blk, list) and n in blk:
+                return blk[blk.index(n) + 1:]
+        return []
+
     for n in walk_no_nested(func.node):
         if isinstance(n, ast.If) and "version" in src(n.test):
             t = src(n.test).replace(" ", "")
+            other = n.orelse
+            if not other and n.body and isinstance(n.body[-1], (ast.Return, ast.Raise)):
+                other = rest_after(n)
             if ">=1" in t or ">0" in t:
-                return n.body, n.orelse, n
+                return n.body, other, n
             if "<1" in t or "==0" in t:
-                return n.orelse, n.body, n
+                return other, n.body, n
     return None, None, None
 
 
